@@ -244,7 +244,11 @@ func ruleM2(c *Ctx, id string) {
 		return
 	}
 	found := false
-	for _, br := range branches(w) {
+	var wBranches []Branch
+	for _, sc := range scopesOf(w) {
+		wBranches = append(wBranches, branches(sc.Fn)...)
+	}
+	for _, br := range wBranches {
 		if br.Cond.X == nil || br.Cond.Y == nil {
 			continue
 		}
@@ -267,7 +271,11 @@ func ruleM2(c *Ctx, id string) {
 	}
 	// the quantity that was bounded is the quantity written
 	if c.V.InodeWrite != nil {
-		for _, call := range P.CallsIn(w, funcIs(c.V.InodeWrite)) {
+		var wcalls []ssa.Instruction
+		for _, sc := range scopesOf(w) {
+			wcalls = append(wcalls, P.CallsIn(sc.Fn, funcIs(c.V.InodeWrite))...)
+		}
+		for _, call := range wcalls {
 			cnt := argN(call, 2) // Write(atxn, offset, count, data): receiver is operand 0 of the call's args
 			if cc := callCommon(call); cc != nil && len(cc.Args) >= 5 {
 				cnt = cc.Args[3]
